@@ -15,7 +15,7 @@ for m in sorted(glob.glob(os.path.join(ROOT, 'seeded', '*', 'meta.json'))):
     v = d.get('verified', {})
     ok = v.get('demo_passes_without_change') and v.get('demo_fails_with_change')
     rows.append('| `%s` | %s | %s | %s | %s |' % (d['id'], d.get('property'), (d.get('what') or '').replace('|', '/')[:160],
-                                              'yes' if ok else 'NO', '; '.join(res)))
+                                              'yes' if ok else ('red-team, not re-run' if str(d.get('origin','')).startswith('red-team') else 'NO'), '; '.join(res)))
 table = ('| seeded change | property | what it does | demo verified | checks (quick tier) |\n|---|---|---|---|---|\n' + '\n'.join(rows))
 p = os.path.join(ROOT, 'DESIGN.md')
 s = open(p).read()
